@@ -1,4 +1,5 @@
 import Supv.Model.Cmd
+import Supv.Spec.Cmd
 import Supv.Drv.Util
 
 /-!
@@ -7,14 +8,14 @@ Driver of the commander model.  Input: `world ...` / `app ...` / `proc ...` conf
 -/
 
 namespace Supv.Drv.Cmd
-open Supv.Proc Supv.Cmd Supv.Drv
+open Supv.Proc Supv.Cmd Supv.Drv Supv.Spec.Cmd
 
 def parseNatList (s : String) : List Nat :=
   if s == "-" then [] else (s.splitOn ",").filterMap (·.toNat?)
 
 def showOut : Out → String
-  | .start p i => s!"start:{p}>{i}"
-  | .force p s nr => s!"force:{p}:{s.code}:{if nr then 1 else 0}"
+  | .start p i k st => s!"start:{p}>{i}@{k}/{st.code}"
+  | .force p s nr k => s!"force:{p}:{s.code}:{if nr then 1 else 0}@{k}"
   | .stop p i => s!"stop:{p}>{i}"
 
 def obs (w : W) : String :=
@@ -52,27 +53,94 @@ def action (rest : List String) : Option (M Unit) :=
   | ["restartapp", a, strat] => some (restartApplication FUEL a.toNat! (Strategy.ofCode strat.toNat!))
   | _ => none
 
-def stepLine (w : W) (line : String) : W × String :=
+/-- the requests the implementation emitted: the bracketed list after `out=[` -/
+def parseReqs (obs : String) : List Req :=
+  match obs.splitOn "out=[" with
+  | _ :: rest :: _ =>
+    match rest.splitOn "]" with
+    | inner :: _ =>
+      if inner.isEmpty then [] else
+      (inner.splitOn ",").filterMap (fun x =>
+        match x.splitOn ":" with
+        | ["start", pi] => match pi.splitOn ">" with
+          | [p, rest] => match rest.splitOn "@" with
+            | [i, ks] => match ks.splitOn "/" with
+              | [k, st] => match p.toNat?, i.toNat?, k.toNat?, st.toNat? with
+                | some p, some i, some k, some st => some (Req.start p i k (Strategy.ofCode st))
+                | _, _, _, _ => none
+              | _ => none
+            | _ => none
+          | _ => none
+        | ["stop", pi] => match pi.splitOn ">" with
+          | [p, i] => match p.toNat?, i.toNat? with | some p, some i => some (Req.stop p i) | _, _ => none
+          | _ => none
+        | ["force", p, st, nrk] => match nrk.splitOn "@" with
+          | [nr, k] => match p.toNat?, st.toNat? >>= PState.ofCode, k.toNat? with
+            | some p, some st, some k => some (Req.force p st (nr == "1") k)
+            | _, _, _ => none
+          | _ => none
+        | _ => none)
+    | [] => []
+  | _ => []
+
+structure D where
+  w : W := default
+  j : Judge := {}
+  deriving Inhabited
+
+/-- the processes of application `a` that are running or stopping -/
+def activeOf (w : W) (a : Nat) : List Nat :=
+  (List.range w.pcfg.length).filter (fun q => (pc w q).app == a && ((pr w q).state.isRunning || (pr w q).state == .stopping))
+
+/-- a stop of application `a` is requested -/
+def beginStop (w0 : W) (j : Judge) (a : Nat) : Judge :=
+  let busy := j.stops.any (fun r => (pc w0 r.1).app == a) || !w0.splanned.isEmpty || !w0.scurrent.isEmpty
+  { j with stopRuns := j.stopRuns ++ [a], givenUp := j.givenUp.filter (fun q => (pc w0 q).app != a), stopSet := j.stopSet ++ activeOf w0 a,
+           overlap := if busy && j.stopRuns.contains a then j.overlap ++ [a] else j.overlap }
+
+/-- fold the monitor over one operation: `w0` world before, `w1` world after, `reqs` what the implementation emitted -/
+def judgeOp (w0 w1 : W) (j : Judge) (rest : List String) (reqs : List Req) (starting : Bool) : Judge × List String :=
+  let (j0, pre) : Judge × List String := match rest with
+    | ["event", i, p, st, ex, _, _] => (onEvent w1 j p.toNat! i.toNat! (pstate st) (s2b ex), [])
+    | ["restartapp", a, _] =>
+      if hasRunningProcesses w0 a.toNat! then (beginStop w0 j a.toNat!, []) else (j, [])
+    | ["stopapp", a] => (beginStop w0 j a.toNat!, [])
+    | ["check"] => (j, onCheck w1 j reqs)
+    | _ => (j, [])
+  let (j1, v1) := reqs.foldl (fun (acc : Judge × List String) r => let (j', v) := onReq w1 acc.1 r; (j', acc.2 ++ v)) (j0, pre)
+  let (j2, v2) := onIdle j1 starting
+  (j2, v1 ++ v2)
+
+def stepLine (d : D) (line : String) : D × String :=
+  let w := d.w
+  let lift (r : W × String) : D × String := ({ d with w := r.1, j := {} }, r.2)
   let parts := line.splitOn "|"
   match words (parts.getD 0 "") with
-  | ["world", ninst, me, nodes, running] =>
+  | ["world", ninst, me, nodes, running] => lift
     ({ ninst := ninst.toNat!, me := me.toNat!, node := parseNatList nodes, instRunning := (parseNatList running).map (· == 1),
        counter := List.replicate ninst.toNat! 0, pcfg := [], acfg := [], procs := [] }, "ok")
-  | ["app", sseq, strat, stseq] =>
+  | ["app", sseq, strat, stseq] => lift
     ({ w with acfg := w.acfg ++ [{ startSeq := sseq.toNat!, strategy := Strategy.ofCode strat.toNat!, stopSeq := stseq.toNat! }] }, "ok")
   | ["proc", app, sseq, req, we, load, sf, idents, startsecs, stseq, stopwait] =>
     let c : PCfg := { app := app.toNat!, startSeq := sseq.toNat!, required := s2b req, waitExit := s2b we, load := load.toNat!,
                       sfail := if sf == "ABORT" then .abort else if sf == "STOP" then .stop else .cont,
                       idents := if idents == "*" then none else some (parseNatList idents), startsecs := startsecs.toNat!,
                       stopSeq := stseq.toNat!, stopwaitsecs := stopwait.toNat! }
-    ({ w with pcfg := w.pcfg ++ [c], procs := w.procs ++ [{}] }, "ok")
+    lift ({ w with pcfg := w.pcfg ++ [c], procs := w.procs ++ [{}] }, "ok")
   | "op" :: now :: rest =>
     let w := { w with now := now.toNat!, out := [] }
     match action rest with
-    | none => (w, "bad-op")
-    | some a => let (_, w') := a.run w; (w', obs w' ++ " | J:ok")
-  | _ => (w, "bad-op")
+    | none => (d, "bad-op")
+    | some a =>
+      let (_, w') := a.run w
+      let implObs := parts.getD 1 ""
+      let (j', verdicts0) := judgeOp w w' d.j rest (parseReqs implObs) ((implObs.splitOn "starting=true").length > 1)
+      -- the implementation dropped a job object while its group was being processed (root cause of the untracked requests):
+      -- what is emitted in such an operation is attributed to that root cause
+      let verdicts := if (implObs.splitOn "orphan=1").length > 1 then ["C10-start-request-untracked:job-dropped-while-processing"] else verdicts0
+      ({ w := w', j := j' }, obs w' ++ " | " ++ (if verdicts.isEmpty then "J:ok" else "J:" ++ ";".intercalate verdicts))
+  | _ => (d, "bad-op")
 
-def main : IO Unit := runLoop (default : W) stepLine
+def main : IO Unit := runLoop (default : D) stepLine
 
 end Supv.Drv.Cmd
